@@ -74,6 +74,7 @@ type SpecFunc struct {
 	BodySrc string
 	Macro   bool
 	Opaque  bool // definition visible only where revealed (`reveals name`)
+	FootOnly bool // "~ expr": uninterpreted function of the parameters and of the heap maps expr reads
 	File    string
 }
 
@@ -95,8 +96,9 @@ type Lemma struct {
 }
 
 type GhostVar struct {
-	Name string
-	Sort string
+	Name    string
+	Sort    string
+	Default string // per-object ghost maps: value at freshly allocated references
 }
 
 type Specs struct {
@@ -346,7 +348,17 @@ func (s *Specs) LoadFile(path, pkgPath string) error {
 			if len(fs) < 3 || fs[0] != "var" {
 				return fail(l, "expected: ghost var <name> <sort>")
 			}
-			s.Ghost[fs[1]] = &GhostVar{Name: fs[1], Sort: strings.Join(fs[2:], " ")}
+			gv := &GhostVar{Name: fs[1]}
+			rest2 := fs[2:]
+			for i, f := range rest2 {
+				if f == "default" && i+1 < len(rest2) {
+					gv.Default = strings.Join(rest2[i+1:], " ")
+					rest2 = rest2[:i]
+					break
+				}
+			}
+			gv.Sort = strings.Join(rest2, " ")
+			s.Ghost[fs[1]] = gv
 		case "reveals":
 			if curLemma != nil {
 				curLemma.Reveals = append(curLemma.Reveals, strings.Fields(rest)...)
@@ -421,7 +433,7 @@ func isStdQualified(name string) bool {
 	return false
 }
 
-var specFuncRe = regexp.MustCompile(`^([A-Za-z_][A-Za-z0-9_#]*)\s*\(([^)]*)\)\s*([A-Za-z0-9_\[\]\*\./]*)\s*(=\s*(.*))?$`)
+var specFuncRe = regexp.MustCompile(`^([A-Za-z_][A-Za-z0-9_#]*)\s*\(([^)]*)\)\s*([A-Za-z0-9_\[\]\*\./]*)\s*([=~]\s*(.*))?$`)
 
 func parseSpecFunc(r string, macro bool) (*SpecFunc, error) {
 	m := specFuncRe.FindStringSubmatch(r)
@@ -454,6 +466,10 @@ func parseSpecFunc(r string, macro bool) (*SpecFunc, error) {
 		}
 		sf.Body = e
 		sf.BodySrc = m[5]
+		if strings.HasPrefix(m[4], "~") {
+			sf.FootOnly = true
+			sf.Opaque = true
+		}
 	}
 	if macro && sf.Body == nil {
 		return nil, fmt.Errorf("macro %s needs a body", sf.Name)
@@ -524,6 +540,8 @@ func SpecSort(t string) string {
 		return "(Array Int Int)"
 	case "strarr":
 		return "(Array Int Str)"
+	case "trace":
+		return "Trace"
 	}
 	return t
 }
